@@ -10,6 +10,7 @@ import (
 	"net"
 	"os"
 	"sync"
+	"syscall"
 )
 
 type Call struct {
@@ -27,6 +28,7 @@ type Driver struct {
 	Datagrams [][]byte // scripted arrivals for the next call(s)
 	Consumed  int      // datagrams handed to the client so far
 	Scribble  bool     // overwrite buffers after they were delivered (C17)
+	Refuse    bool     // the directed paths fail the way a refused connection does (ECONNREFUSED)
 	delivered [][]byte
 }
 
@@ -81,8 +83,14 @@ func (d *Driver) BroadcastTo(addr *net.UDPAddr, req []byte, cb func([]byte) bool
 	return nil, ErrTimeout
 }
 
+// ErrRefused: what a refused TCP connect / an ICMP port-unreachable on a connected UDP socket looks like
+var ErrRefused = &net.OpError{Op: "dial", Net: "tcp", Err: os.NewSyscallError("connect", syscall.ECONNREFUSED)}
+
 func (d *Driver) directed(m string, addr string, req []byte) ([]byte, error) {
 	d.record(m, addr, req)
+	if d.Refuse {
+		return nil, ErrRefused
+	}
 	if len(req) > 1 && req[1] == 0x96 {
 		return nil, nil
 	}
